@@ -821,7 +821,8 @@ impl ErasedNode for Node {
             // | Kind::If_then_else i -> node.height > i.test_change.height
             // | Join_main j -> node.height > j.lhs_change.height
         };
-        if can_recompute_now || parent.height() <= state.recompute_heap.min_height() {
+        let min_height = state.recompute_heap.min_height();
+        if (can_recompute_now && child.height() <= min_height) || parent.height() <= min_height {
             /* If [parent.height] is [<=] the height of all nodes in the recompute heap
             (possibly because the recompute heap is empty), then we can recompute
             [parent] immediately and save adding it to and then removing it from the
